@@ -59,6 +59,18 @@ from spyne.util.cdict import cdict
 
 _date_re = re.compile(DATE_PATTERN)
 _boolean_literals = {'true': True, '1': True, 'false': False, '0': False}
+# int(), float() and Decimal() are more lenient than the xsd lexical spaces:
+# they take digit group separators ('1_000'), any unicode digit, 'infinity'.
+_integer_re = re.compile(r'\s*[+-]?[0-9]+\s*\Z')
+_double_re = re.compile(r'\s*([+-]?([0-9]+(\.[0-9]*)?|\.[0-9]+)([eE][+-]?[0-9]+)?'
+                        r'|[+-]?INF|NaN)\s*\Z')
+
+
+def _as_text(string):
+    if isinstance(string, six.binary_type):
+        return string.decode('ascii', 'replace')
+    return string
+
 _time_re = re.compile(TIME_PATTERN)
 _duration_re = re.compile(
         r'(?P<sign>-?)'
@@ -381,6 +393,10 @@ class InProtocolBase(ProtocolMixin):
                                     string.decode(self.default_string_encoding))
 
     def double_from_bytes(self, cls, string):
+        if isinstance(string, (six.text_type, six.binary_type)) and \
+                                   _double_re.match(_as_text(string)) is None:
+            raise ValidationError(string)
+
         try:
             return float(string)
         except (TypeError, ValueError) as e:
@@ -395,6 +411,10 @@ class InProtocolBase(ProtocolMixin):
             raise ValidationError(string,
                                          "Integer %%r longer than %d characters"
                                                         % cls_attrs.max_str_len)
+
+        if isinstance(string, (six.text_type, six.binary_type)) and \
+                                  _integer_re.match(_as_text(string)) is None:
+            raise ValidationError(string, "Could not cast %r to integer")
 
         try:
             return int(string)
